@@ -320,6 +320,20 @@ Section Reader.
   Definition seek_log (r : reader) (name : bytes) (idx : N) : res (list record) :=
     let* ot := seek_record r typ_log (log_key_of name idx) in drain_opt r ot.
 
+  (* reftable.go ReadRef / ReadLogAt: the first record of the seek, if it carries the wanted name *)
+  Definition read_ref (r : reader) (name : bytes) : res (option ref_record) :=
+    let* rs := seek_ref r name in
+    Ok (match rs with
+        | RecRef x :: _ => if bytes_eqb (r_name x) name then Some x else None
+        | _ => None
+        end).
+  Definition read_log_at (r : reader) (name : bytes) (idx : N) : res (option log_record) :=
+    let* rs := seek_log r name idx in
+    Ok (match rs with
+        | RecLog l :: _ => if bytes_eqb (l_name l) name then Some l else None
+        | _ => None
+        end).
+
   Definition rec_points_to (oid : bytes) (rec : record) : bool :=
     match rec with RecRef x => points_to oid x | _ => false end.
 
